@@ -957,7 +957,49 @@ impl<'a> Builder<'a> {
         Some(cands[sel(tp.pool, cands.len())])
     }
 
+    /// A pool request whose data is the empty string (or the long spelling of the same key). The empty string is the
+    /// byte form of the placeholder `NewCustom`, so the data parses as a pool between "the transaction's own new token"
+    /// and MEL - a side that is not a denomination. Output 0 declares a new token (free to create), output 1 MEL.
+    fn build_newtoken_request(&mut self, tp: &TxPlan, kind: TxKind) -> Option<Built> {
+        let inputs = pick_inputs(&tp.ins[..tp.ins.len().min(1)], &mut self.avail, &[Denom::Mel]);
+        let totals = Self::totals(&inputs);
+        let have = *totals.get(&Denom::Mel).unwrap_or(&0);
+        if have == 0 {
+            return None;
+        }
+        let mut tx = self.base(kind, &inputs);
+        let a = value_class(tp.amount).min(MAX_COINVAL).max(1);
+        let b = amount_class(tp.amount.rotate_left(3), have / 2).max(1);
+        tx.data = if tp.mparam % 2 == 0 {
+            Vec::new().into()
+        } else {
+            let mut v = vec![0u8; 32];
+            v.extend_from_slice(&stdcode::serialize(&(Denom::NewCustom, Denom::Mel)).unwrap());
+            v.into()
+        };
+        let dest = self.dest(tp.outs[0].dest).hash();
+        tx.outputs.push(CoinData { covhash: dest, value: CoinValue(a), denom: Denom::NewCustom, additional_data: Default::default() });
+        let mut reserved = BTreeMap::new();
+        let mut fixed_mel = 0;
+        if kind == TxKind::LiqDeposit {
+            tx.outputs.push(CoinData { covhash: dest, value: CoinValue(b), denom: Denom::Mel, additional_data: Default::default() });
+            reserved.insert(Denom::Mel, b);
+            fixed_mel = b;
+        }
+        let tp2 = TxPlan { outs: tp.outs[1..].to_vec(), ..tp.clone() };
+        let mel_slots = self.change_outputs(&mut tx, &tp2, &totals, &reserved);
+        let mut bb = self.finish(tx, inputs, tp, &mel_slots, fixed_mel);
+        bb.spelling = Some("new-token-side");
+        bb.pool = None;
+        Some(bb)
+    }
+
     fn build_swap(&mut self, tp: &TxPlan) -> Option<Built> {
+        if (tp.spell as u32) < self.p.p_odd_spelling && tp.mparam % 7 == 6 {
+            if let Some(b) = self.build_newtoken_request(tp, TxKind::Swap) {
+                return Some(b);
+            }
+        }
         let k = self.choose_pool(tp, false)?;
         let have_left = self.avail.iter().any(|c| c.cdh.coin_data.denom == k.left());
         let have_right = self.avail.iter().any(|c| c.cdh.coin_data.denom == k.right());
@@ -989,6 +1031,11 @@ impl<'a> Builder<'a> {
         if self.p.mainnet_like_legacy && refstf::legacy_net(self.w.net) && self.height < 978_392 {
             // legacy deposit regime (known finding KF-L3): the second coin is "removed" under a wrong id
             return None;
+        }
+        if (tp.spell as u32) < self.p.p_odd_spelling && tp.mparam % 7 == 6 {
+            if let Some(b) = self.build_newtoken_request(tp, TxKind::LiqDeposit) {
+                return Some(b);
+            }
         }
         let k = self.choose_pool(tp, true)?;
         let inputs = pick_inputs(&tp.ins[..tp.ins.len().min(1)], &mut self.avail, &[k.left(), k.right()]);
